@@ -28,6 +28,10 @@ pub enum FrameSpec {
     Ver(u8),
     /// a maximum-size frame
     Big(u8),
+    /// a frame of a known type that is shorter than that type needs (4 or 8 bytes): a decode error on its own
+    Short(u8, u8),
+    /// a variable-text packet (MSO / III / ACR / MTC / BTN) whose text fills the frame completely, without a NUL
+    UnterminatedText(u8, u8),
 }
 
 pub fn size_byte(mode: &Mode, len: usize) -> u8 {
@@ -73,6 +77,32 @@ pub fn frame_bytes(f: &FrameSpec, mode: &Mode) -> Vec<u8> {
             f.push(0);
             f
         },
+        FrameSpec::Short(ty, fill) => {
+            // types whose fixed layout needs more than 8 bytes
+            let types = [1u8, 2, 5, 9, 10, 13, 15, 17, 18, 20, 21, 24, 25, 26, 27, 34, 35, 36, 39, 40, 43, 47, 48, 49, 50, 51, 52, 53, 56, 57, 58, 59, 63, 254];
+            let t = types[*ty as usize % types.len()];
+            let len = if fill % 2 == 0 { 4 } else { 8 };
+            let mut v = vec![fill | 1; len];
+            v[0] = size_byte(mode, len);
+            v[1] = t;
+            v
+        },
+        FrameSpec::UnterminatedText(which, n) => {
+            // (type, header length)
+            let (ty, hdr) = [(11u8, 8usize), (12, 8), (55, 8), (14, 8), (45, 12)][*which as usize % 5];
+            let words = 1 + (*n as usize % 6);
+            let len = hdr + 4 * words;
+            let mut v = vec![0u8; len];
+            v[0] = size_byte(mode, len);
+            v[1] = ty;
+            if ty == 55 {
+                v[6] = 1; // ACR result: Processed
+            }
+            for (i, b) in v.iter_mut().enumerate().skip(hdr) {
+                *b = b'a' + (i % 26) as u8;
+            }
+            v
+        },
         FrameSpec::Big(fill) => {
             let len = match mode {
                 Mode::Compressed => 1020,
@@ -96,6 +126,8 @@ pub fn frame_strategy(keepalive_weight: u32, ver_weight: u32) -> impl Strategy<V
         3 => (any::<u8>(), prop_oneof![Just(0u8), any::<u8>()]).prop_map(|(a, b)| FrameSpec::Tiny(a, b)),
         ver_weight => prop_oneof![Just(9u8), any::<u8>()].prop_map(FrameSpec::Ver),
         1 => any::<u8>().prop_map(FrameSpec::Big),
+        2 => (any::<u8>(), any::<u8>()).prop_map(|(a, b)| FrameSpec::Short(a, b)),
+        2 => (any::<u8>(), any::<u8>()).prop_map(|(a, b)| FrameSpec::UnterminatedText(a, b)),
     ]
 }
 
